@@ -228,6 +228,13 @@ def item_for(idx, members):
             A, B = "au::CommonUnitT<%s>" % ", ".join(a), "au::CommonUnitT<%s>" % ", ".join(b)
             lines.append("static_assert(au::AreUnitsQuantityEquivalent<C, au::CommonUnitT<%s, %s>>::value, \"nesting (two common units)\");" % (A, B))
             lines.append("static_assert(std::is_same<au::CommonUnitT<%s, %s>, au::CommonUnitT<%s, %s>>::value, \"nested common units commute\");" % (A, B, B, A))
+    # the function forms and the maker / symbol / singular-name / constant forms name the same unit
+    objs = ", ".join("%s{}" % t for t in ts)
+    lines.append("static_assert(std::is_same<decltype(au::common_unit(%s)), C>::value, \"common_unit(u...)\");" % objs)
+    for wrap in ("au::QuantityMaker", "au::SymbolFor", "au::SingularNameFor", "au::Constant"):
+        args = ", ".join("%s<%s>{}" % (wrap, t) for t in ts)
+        lines.append("static_assert(std::is_same<decltype(au::make_common(%s)), %s<C>>::value, \"make_common(%s...)\");" % (args, wrap, wrap))
+        lines.append("static_assert(std::is_same<decltype(au::common_unit(%s)), C>::value, \"common_unit(%s...)\");" % (args, wrap))
     # std::common_type of quantities
     lines.append("static_assert(std::is_same<std::common_type_t<au::Quantity<%s, int>, au::Quantity<%s, double>>, au::Quantity<au::CommonUnitT<%s, %s>, double>>::value, \"common_type\");" % (ts[0], ts[1], ts[0], ts[1]))
     lines.append("static_assert(std::is_same<std::common_type_t<au::Quantity<%s, std::int16_t>, au::Quantity<%s, std::int64_t>>, au::Quantity<au::CommonUnitT<%s, %s>, std::int64_t>>::value, \"common_type (other order)\");" % (ts[1], ts[0], ts[0], ts[1]))
@@ -256,7 +263,7 @@ def body(ctx):
     ctx.require(ntie >= len(lists) // 25, "only %d lists with two members of equal magnitude" % ntie)
     ctx.coverage.update(dict(
         evaluations=len(items) * len(configs), distinct_nontrivial=len(items),
-        rule="one program per seeded list of 2-4 same-dimension units (library units, named and anonymous scaled units with numerators/denominators below 2^40, pi and root factors); plus, in every fifth list, anonymous products/quotients of library units of one dimension (N*m, W*s, J, scaled forms; equal magnitudes preferred) and respelled scalings of equal magnitude; asserts integer ratios, exact gcd magnitude read out of the type, identity under every permutation and repetition, winner-is-an-input, nesting equivalence, std::common_type; lists in which two distinct NAMED units of identical magnitude meet are excluded",
+        rule="one program per seeded list of 2-4 same-dimension units (library units, named and anonymous scaled units with numerators/denominators below 2^40, pi and root factors); plus, in every fifth list, anonymous products/quotients of library units of one dimension (N*m, W*s, J, scaled forms; equal magnitudes preferred) and respelled scalings of equal magnitude; asserts integer ratios, exact gcd magnitude read out of the type, identity under every permutation and repetition, winner-is-an-input, nesting equivalence, std::common_type, and that every access path (common_unit(u...), make_common over quantity makers / symbols / singular names / constants, common_unit over makers) names the same type; lists in which two distinct NAMED units of identical magnitude meet are excluded",
         samples=[dict(key=items[0].key, code=items[0].code)], exhaustive=False,
         lists=len(items), lists_irrational=nirr, lists_skipped_collision=skipped, lists_compound=ncomp, lists_with_origin_unit=norg, lists_equal_magnitude_tie=ntie, mismatches=nbad, configs=[c.name for c in configs], engine_stats=stats))
     ctx.assumptions += ["'largest' is decided as: the common unit's magnitude equals the base-wise minimum of the inputs' exponents (missing base = 0)"]
